@@ -169,7 +169,7 @@ class Engine:
 			spans = None
 			if is_struct and answers[stride * index + 5] and answers[stride * index + 5].startswith('ok '):
 				spans = [part.split(':') for part in answers[stride * index + 5][3:].split(',') if ':' in part]
-			for mutant, label in self.mutants(data, spans, mutants_per_value):
+			for mutant, label in self.mutants(data, spans, mutants_per_value) + self.reorder_mutants(type_name, case['obj'], data, spans):
 				mutant_lines.append(f'dec {self.sid} {type_name} {mutant.hex().upper() if mutant else "-"}')
 				mutant_meta.append((mutant, label, ident))
 			mutant_lines.append(f'dec {self.sid} {type_name} {data.hex().upper() if data else "-"}')
@@ -237,6 +237,54 @@ class Engine:
 		if bytes(obj2.serialize()) != again:
 			ctx.fail('property', f'{self.net.name}.{type_name}: second re-encoding differs from the first', info, signature=ded_signature(self.net.name, type_name, 're-encode-differs'))
 		ctx.count('ded-checked')
+
+	def reorder_mutants(self, type_name, obj, data, spans):
+		"""Encodings in which the elements of one array member are rearranged (two neighbours swapped - the first pair, a later
+		pair - or an element written twice), everything else and all counts/sizes untouched. For an array with a sort key such
+		bytes are not the encoding of any value: the decoder must refuse them exactly as the model's decoder does."""
+		typedef = self.net.types[type_name]
+		if not spans or 'struct' != typedef['k']:
+			return []
+		result = []
+		fields = {field['name']: field for field in typedef['fields']}
+		for name, kind, offset, length in spans:
+			field = fields.get(name)
+			if 'array' != kind or field is None or 'array' != field['kind']['k']:
+				continue
+			offset, length = int(offset), int(length)
+			elements = getattr(obj, '_' + codec.fix_name(name), None)
+			if not isinstance(elements, list) or len(elements) < 2:
+				continue
+			try:
+				encoded = [bytes(element.serialize()) for element in elements]
+			except Exception:  # pylint: disable=broad-except
+				continue
+			align = field['kind']['align']
+			chunks, position = [], offset
+			for index, raw in enumerate(encoded):
+				width = len(raw)
+				if align and (index + 1 < len(encoded) or field['kind']['padLast']):
+					width += -width % align
+				chunks.append(data[position:position + width])
+				position += width
+			if position != offset + length or any(not chunk.startswith(raw) for chunk, raw in zip(chunks, encoded)):
+				continue  # the member is not laid out as the plain sequence of its elements (reported by the layout comparison)
+			if align and not field['kind']['padLast']:
+				chunks = chunks[:-1]  # keep the unpadded last element in place
+			variants = []
+			if len(chunks) >= 2:
+				variants.append(('swap-first', [chunks[1], chunks[0]] + chunks[2:]))
+				variants.append(('duplicate', [chunks[0], chunks[0]] + chunks[2:]))
+			if len(chunks) >= 3:
+				last = len(chunks) - 1
+				variants.append(('swap-later', chunks[:last - 1] + [chunks[last], chunks[last - 1]]))
+				variants.append(('duplicate-later', chunks[:last] + [chunks[last - 1]]))
+			keyed = 'keyed' if field['kind']['sortKey'] else 'plain'
+			for label, rearranged in variants:
+				body = b''.join(rearranged) + (b''.join(data[offset:offset + length][len(b''.join(chunks)):] for _ in (0,)))
+				if len(body) == length and body != data[offset:offset + length]:
+					result.append((data[:offset] + body + data[offset + length:], f'elements-{label}:{keyed}'))
+		return result
 
 	def mutants(self, data, spans, limit):
 		rng = self.ctx.rng
